@@ -22,7 +22,7 @@ pub fn property() -> Property {
         parts: vec![
             Part {
                 name: "valid",
-                quick: 30_000,
+                quick: 60_000,
                 thorough: 1_000_000,
                 single_shard: false, supplementary: false,
                 run: |cfg| run_part(cfg, (gen::raw_pos(80), any::<bool>(), any::<u8>(), any::<u32>(), any::<u32>()), |(r, four, sel, h, f)| valid_case(r, *four, *sel, *h, *f), check_valid),
@@ -30,7 +30,7 @@ pub fn property() -> Property {
             },
             Part {
                 name: "invalid",
-                quick: 30_000,
+                quick: 60_000,
                 thorough: 1_000_000,
                 single_shard: false, supplementary: false,
                 run: |cfg| run_part(cfg, (gen::raw_pos(40), 0..N_FAULTS, any::<u32>(), any::<u32>()), |(r, class, a, b)| invalid_case(r, *class, *a, *b), check_invalid),
@@ -38,7 +38,7 @@ pub fn property() -> Property {
             },
             Part {
                 name: "total",
-                quick: 100_000,
+                quick: 200_000,
                 thorough: 4_000_000,
                 single_shard: false, supplementary: false,
                 run: |cfg| run_part(cfg, total_strategy(), |s| TextCase { text: s.clone() }, check_total),
